@@ -18,6 +18,13 @@ from gaddlemaps import Alignment, Manager, _cli
 from gaddlemaps.components import Molecule
 
 PROPERTY = "C20"
+# species names: each of the others is contained in the second one (prefix / suffix), so that a test of the form
+# "name in <text>" instead of "name in <list>" anywhere in the tool changes what is mapped
+SPN = ["SP", "SP1", "P1"]
+
+
+def spn(case, k):
+    return case["species"][k]["start"]["name"]
 LEVEL = "exploration"
 RULE = ("generated directories: 2..3 species (start .itp, end .gro, end .itp; end size != start size), a system file with "
         "interleaved instances, and distractors (foreign extensions, files of a species absent from the system, a "
@@ -83,7 +90,7 @@ def directory_case(draw):
         def topo(n, rn, tag):
             edges = draw(gen.graph_edges(n, "tree")) if n > 1 else []
             names = ["%s%d" % (draw(st.sampled_from(["C", "N", "O"])), i + 1) for i in range(n)]
-            return {"name": "SP%d" % k, "edges": edges, "residues": [[rn, 1, names]]}
+            return {"name": SPN[k], "edges": edges, "residues": [[rn, 1, names]]}
         s = topo(ns, "S%dX" % k, "s")
         e = topo(ne, "E%dX" % k, "e")
         s = gen.with_coords(s, np.round(gen.walk_geometry(ns, s["edges"], rng, lo=0.25, hi=0.4, spread=0.1), 3))
@@ -148,7 +155,7 @@ def build_directory(case, rename_end=False):
                                    [tuple(e) for e in spec["edges"]]))
     triples = {}
     for k, sp in enumerate(case["species"]):
-        nm = "SP%d" % k
+        nm = spn(case, k)
         dot = ".v%d" % k if case["seed"] % 2 else ""          # file names may contain further dots
         cg = os.path.join(inputs, "%s%s_CG.itp" % (nm, dot))
         ag = os.path.join(inputs, "%s%s_AA.gro" % (nm, dot))
@@ -190,7 +197,7 @@ def build_directory(case, rename_end=False):
         elif dname == "system-file":
             listing.append(system)
         elif dname == "copy-gro":
-            nm = "SP%d" % case["dup_of"]
+            nm = spn(case, case["dup_of"])
             p = os.path.join(inputs, "%s_AA_second.gro" % nm)
             indep.write_gro(p, "second copy", spec_records(case["species"][case["dup_of"]]["end"]), [6.0, 6.0, 6.0])
             listing.append(p)
@@ -198,7 +205,7 @@ def build_directory(case, rename_end=False):
         elif dname == "snapshots":
             # a folder of further coordinate snapshots of one species handed over with the other candidates (--auto *),
             # more of them than the process may hold open at once (the driver lowers its open-file limit)
-            nm = "SP%d" % case["dup_of"]
+            nm = spn(case, case["dup_of"])
             sub = os.path.join(inputs, "snapshots")
             os.makedirs(sub, exist_ok=True)
             for k in range(56):
@@ -207,14 +214,14 @@ def build_directory(case, rename_end=False):
                 listing.append(p)
                 candidates[nm]["coor_AA"].append(p)
         elif dname == "copy-itp":
-            nm = "SP%d" % case["dup_of"]
+            nm = spn(case, case["dup_of"])
             p = os.path.join(inputs, "%s_AA_second.itp" % nm)
             write_itp(p, case["species"][case["dup_of"]]["end"])
             listing.append(p)
             candidates[nm]["top_AA"].append(p)
         elif dname in ("same-basename-gro", "same-basename-itp"):
             # a second valid candidate with the SAME file name in another folder
-            nm = "SP%d" % case["dup_of"]
+            nm = spn(case, case["dup_of"])
             sub = os.path.join(inputs, "other_conf")
             os.makedirs(sub, exist_ok=True)
             if dname.endswith("gro"):
@@ -234,7 +241,7 @@ def build_directory(case, rename_end=False):
             st_ = case["species"][k]["start"]
             fake = dict(st_, name="LOOK%d" % k,
                         residues=[[rn, ri, ["Z%d" % (i + 1) for i in range(len(names))]] for rn, ri, names in st_["residues"]])
-            gen_cg = triples["SP%d" % k][0]
+            gen_cg = triples[spn(case, k)][0]
             p = gen_cg[:-len("_CG.itp")] + "_CG-draft.itp"
             write_itp(p, fake)
             listing.append(p)
@@ -251,7 +258,7 @@ def build_directory(case, rename_end=False):
             for nm in candidates:
                 candidates[nm]["coor_AA"].append(p)
         elif dname == "missing-coords":
-            nm = "SP%d" % case["missing_of"]
+            nm = spn(case, case["missing_of"])
             if ("copy-gro" in case["distractors"] or "same-basename-gro" in case["distractors"]
                     or "snapshots" in case["distractors"]) and case["dup_of"] == case["missing_of"]:
                 continue
@@ -260,7 +267,7 @@ def build_directory(case, rename_end=False):
     if shared:
         incomplete.clear()          # a species without dedicated end coordinates can still use the shared file
         for k in case.get("shared_only", []):
-            ded = triples["SP%d" % k][1]
+            ded = triples[spn(case, k)][1]
             if ded in listing:
                 listing.remove(ded)
         for nm in candidates:
@@ -299,7 +306,7 @@ def run_driver(jobs, hashseed):
 
 def check_discovery(case):
     D = build_directory(case)
-    known_names = ["SP%d" % k for k in case["known"] if "SP%d" % k not in D["incomplete"]]
+    known_names = [spn(case, k) for k in case["known"] if spn(case, k) not in D["incomplete"]]
     sp_mol, sp_auto = case.get("spelling", ["abs", "abs"])
     cwd = D["dir"]
     known = [[spell(p, sp_mol, cwd) for p in D["triples"][nm]] for nm in known_names]
@@ -309,7 +316,7 @@ def check_discovery(case):
             for o in orders]
     # the command line itself (argument handling around the discovery), pipeline replaced by a recorder
     complete_all = [nm for nm in sorted(D["triples"]) if nm not in D["incomplete"]]
-    excl = ["SP%d" % k for k in case["exclude"] if "SP%d" % k not in known_names]
+    excl = [spn(case, k) for k in case["exclude"] if spn(case, k) not in known_names]
     argv = [D["system"]]
     for t in known:
         argv += ["--mol"] + t
@@ -423,13 +430,13 @@ def check_cli(case):
     D = build_directory(case, rename_end=case["mode"] == "mol" and case["seed"] % 3 == 0)
     complete = [nm for nm in sorted(D["triples"]) if nm not in D["incomplete"]]
     mode = case["mode"]
-    explicit = [nm for nm in ("SP%d" % k for k in case["known"]) if nm in complete]
+    explicit = [nm for nm in (spn(case, k) for k in case["known"]) if nm in complete]
     if mode == "mol" or not explicit and mode == "mixed":
         explicit = complete if mode == "mol" else explicit
     auto = mode in ("auto", "mixed")
     if mode == "auto":
         explicit = []
-    exclude = ["SP%d" % k for k in case["exclude"]] if auto else []
+    exclude = [spn(case, k) for k in case["exclude"]] if auto else []
     seed = case["seed"] % (2 ** 32)
     argv_ref = D["system"]
     cwd = None
@@ -519,8 +526,8 @@ def check_cli(case):
 def check_selection(case):
     D = build_directory(case)
     complete = [nm for nm in sorted(D["triples"]) if nm not in D["incomplete"]]
-    explicit = [nm for nm in ("SP%d" % k for k in case["known"]) if nm in complete]
-    exclude = ["SP%d" % k for k in case["exclude"]]
+    explicit = [nm for nm in (spn(case, k) for k in case["known"]) if nm in complete]
+    exclude = [spn(case, k) for k in case["exclude"]]
     sp_mol, sp_auto = case.get("spelling", ["abs", "abs"])
     cwd = D["dir"]
     argv = [D["system"]]
